@@ -7,6 +7,7 @@
 -/
 import PM.Map
 import Proofs.Map
+import Proofs.MapMirror
 namespace PM.C08
 open PM
 
@@ -463,5 +464,127 @@ example : StrictWF 0 [(2, 2, 1), (6, 0, 3)] ∧
     (⟨[(2, 2, 1), (6, 0, 3)], false⟩ : StepMap).map 6 1 = 8 ∧
     (⟨[(2, 2, 1), (6, 0, 3)], false⟩ : StepMap).map 7 1 = 9 := by
   refine ⟨by simp [StrictWF], by decide⟩
+
+/-! ### what the `append_*` / `invert` builders do to the mirror table -/
+
+/-- **`append_mapping`, mirror table**: the receiver's table is kept; for every map `i` of `other`
+    (in order) whose partner `k = other.get_mirror(i)` exists and precedes it (`k < i`) the pair
+    `[len + i, len + k]` is appended (`len` = number of maps of the receiver): the other mapping's
+    mirror indices, shifted by the receiver's length (`carriedPairs`, Proofs/MapMirror.lean).
+    `from_` is untouched and `to` becomes the new number of maps (unless nothing was appended). -/
+theorem appendMapping_mirror_spec (mp other : Mapping) :
+    (mp.appendMapping other).mirror =
+      mp.mirror ++ flatPairs ((List.range other.maps.length).filterMap (fun i =>
+        match other.getMirror i with
+        | some k => if k < i then some (mp.maps.length + i, mp.maps.length + k) else none
+        | none => none)) ∧
+    (mp.appendMapping other).from_ = mp.from_ ∧
+    (mp.appendMapping other).to =
+      (if other.maps.length = 0 then mp.to else mp.maps.length + other.maps.length) :=
+  appendMapping_mirror mp other
+
+/-- **`append_mapping_inverted`, mirror table**: maps of `other` are taken last to first, so map `i`
+    lands at index `len + (n − 1 − i)` (`n` = number of maps of `other`); when its partner
+    `k = other.get_mirror(i)` exists and follows it (`k > i`) the pair
+    `[len + (n − 1 − i), len + n − k − 1]` is appended: the mirror indices reflected (`i ↦ n − 1 − i`)
+    and shifted by the receiver's length. -/
+theorem appendMappingInverted_mirror_spec (mp other : Mapping) :
+    (mp.appendMappingInverted other).mirror =
+      mp.mirror ++ flatPairs ((List.range other.maps.length).reverse.filterMap (fun i =>
+        match other.getMirror i with
+        | some k =>
+          if k > i then some (mp.maps.length + (other.maps.length - 1 - i),
+            mp.maps.length + other.maps.length - k - 1) else none
+        | none => none)) ∧
+    (mp.appendMappingInverted other).from_ = mp.from_ ∧
+    (mp.appendMappingInverted other).to =
+      (if other.maps.length = 0 then mp.to else mp.maps.length + other.maps.length) :=
+  appendMappingInverted_mirror mp other
+
+/-- **`Mapping.invert`, mirror table**: the reflected pairs, nothing else; the whole of it selected -/
+theorem mappingInvert_mirror_spec (mp : Mapping) :
+    mp.invert.mirror = flatPairs ((List.range mp.maps.length).reverse.filterMap (fun i =>
+        match mp.getMirror i with
+        | some k => if k > i then some (mp.maps.length - 1 - i, mp.maps.length - k - 1) else none
+        | none => none)) ∧
+    mp.invert.from_ = 0 ∧ mp.invert.to = mp.maps.length := by
+  obtain ⟨h1, h2, h3⟩ := appendMappingInverted_mirror ({} : Mapping) mp
+  unfold Mapping.invert
+  refine ⟨?_, h2, ?_⟩
+  · rw [h1]
+    simp only [invertedPairs, List.nil_append, List.length_nil, Nat.zero_add]
+    have : invertedPair mp 0 mp.maps.length = (fun i =>
+        match mp.getMirror i with
+        | some k => if k > i then some (mp.maps.length - 1 - i, mp.maps.length - k - 1) else none
+        | none => none) := by
+      funext i
+      simp only [invertedPair]
+      cases mp.getMirror i <;> simp
+    rw [this]
+  · rw [h3]
+    by_cases h0 : mp.maps.length = 0 <;> simp [h0]
+
+/-- **read through `get_mirror`**: after `append_mapping` the receiver's own indices keep their
+    partners, and index `len + j` has the partner of `j` in `other`, shifted by `len` — provided the
+    receiver's table is a list of pairs over its own indices and partners in `other` are mutual,
+    distinct and in range (`MirrorSym`, `MirrorInRange`: true of every table built through
+    `set_mirror` on distinct indices, e.g. `palindrome`) -/
+theorem appendMapping_getMirror (mp other : Mapping) (hev : mp.mirror.length % 2 = 0)
+    (hin : ∀ x ∈ mp.mirror, x < mp.maps.length) (hsym : MirrorSym other) (hrng : MirrorInRange other) :
+    (∀ i, i < mp.maps.length → (mp.appendMapping other).getMirror i = mp.getMirror i) ∧
+    (∀ j, j < other.maps.length →
+      (mp.appendMapping other).getMirror (mp.maps.length + j) =
+        (other.getMirror j).map (mp.maps.length + ·)) :=
+  ⟨fun i hi => appendMapping_getMirror_old mp other hev i hi,
+   fun j hj => appendMapping_getMirror_new mp other hev hin hsym hrng j hj⟩
+
+/-- … after `append_mapping_inverted` map `j` of `other` sits (inverted) at `len + (n − 1 − j)` and
+    its partner is the reflected partner of `j` -/
+theorem appendMappingInverted_getMirror (mp other : Mapping) (hev : mp.mirror.length % 2 = 0)
+    (hin : ∀ x ∈ mp.mirror, x < mp.maps.length) (hsym : MirrorSym other) (hrng : MirrorInRange other) :
+    (∀ i, i < mp.maps.length → (mp.appendMappingInverted other).getMirror i = mp.getMirror i) ∧
+    (∀ j, j < other.maps.length →
+      (mp.appendMappingInverted other).getMirror (mp.maps.length + (other.maps.length - 1 - j)) =
+        (other.getMirror j).map (fun k => mp.maps.length + (other.maps.length - 1 - k))) :=
+  ⟨fun i hi => appendMappingInverted_getMirror_old mp other hev hrng i hi,
+   fun j hj => appendMappingInverted_getMirror_new mp other hev hin hsym hrng j hj⟩
+
+/-- … and `invert` reflects every partnership: `j ↔ k` becomes `n − 1 − j ↔ n − 1 − k` -/
+theorem mappingInvert_getMirror (mp : Mapping) (hsym : MirrorSym mp) (hrng : MirrorInRange mp)
+    (j : Nat) (hj : j < mp.maps.length) :
+    mp.invert.getMirror (mp.maps.length - 1 - j) =
+      (mp.getMirror j).map (fun k => mp.maps.length - 1 - k) := by
+  have := appendMappingInverted_getMirror_new ({} : Mapping) mp rfl (by simp) hsym hrng j hj
+  simpa [Mapping.invert] using this
+
+/-- non-vacuity: the hypotheses hold for the undo mapping of a two-step history, and the instance -/
+example :
+    let other := palindrome [⟨[(2, 2, 1)], false⟩, ⟨[(0, 1, 1)], false⟩]
+    let mp : Mapping := (Mapping.ofMaps [⟨[(1, 0, 1)], false⟩])
+    other.mirror = [2, 1, 3, 0] ∧
+    (mp.appendMapping other).mirror = [3, 2, 4, 1] ∧
+    (mp.appendMappingInverted other).mirror = [3, 2, 4, 1] ∧
+    other.invert.mirror = [2, 1, 3, 0] := by decide
+
+/-- non-vacuity of `MirrorSym` / `MirrorInRange`: the one-step undo mapping -/
+example (m : StepMap) :
+    let o : Mapping := { maps := [m, m.invert], mirror := [1, 0], from_ := 0, to := 2 }
+    MirrorSym o ∧ MirrorInRange o := by
+  intro o
+  constructor
+  · intro i k h
+    simp only [o, Mapping.getMirror, getMirrorAux] at h ⊢
+    split at h
+    · simp only [Option.some.injEq] at h; subst h; rename_i h1; subst h1; simp
+    · split at h
+      · simp only [Option.some.injEq] at h; subst h; rename_i h1; subst h1; simp
+      · simp at h
+  · intro i k _ h
+    simp only [o, Mapping.getMirror, getMirrorAux] at h ⊢
+    split at h
+    · simp only [Option.some.injEq] at h; subst h; simp
+    · split at h
+      · simp only [Option.some.injEq] at h; subst h; simp
+      · simp at h
 
 end PM.C08
